@@ -40,7 +40,7 @@ func c15Reloads(s *sc) {
 		{"inside active interval tiA, no mute interval applies", near, far, []string{"tiB"}, []string{"tiA"}, nil},
 	}
 	// a random walk over the states without repeating the muted-by answer
-	n := 4
+	n := 3
 	if cp(s.c, "thorough", 0) == 1 {
 		n = 6
 	}
